@@ -265,26 +265,29 @@ def EntRes.andThen : EntRes → (Unit → EntRes) → EntRes
   | .some true, k => k ()
   | o, _ => o
 
-/-- `Policy::entails` with explicit recursion fuel -/
+/-- the `match (self.normalized(), other.normalized())` of `entails`; `rec` is the recursive
+call `Self::entails` -/
+def entailsStep (rec : Policy → Policy → EntRes) : Policy → Policy → EntRes
+  | .unsat, _ => .some true
+  | .trivial, .trivial => .some true
+  | .trivial, _ => .some false
+  | _, .unsat => .some false
+  | aNorm, bNorm =>
+    let fc := firstConstraint aNorm
+    let a1 := satisfyConstraint fc true aNorm
+    let b1 := satisfyConstraint fc true bNorm
+    let a2 := satisfyConstraint fc false aNorm
+    let b2 := satisfyConstraint fc false bNorm
+    -- `Some(Self::entails(a1, b1)? && Self::entails(a2, b2)?)`
+    (rec a1 b1).andThen (fun _ => rec a2 b2)
+
+/-- `Policy::entails` with explicit recursion fuel: the terminal bound is checked on the
+un-normalized `self`, then both sides are normalized and matched -/
 def entailsF : Nat → Policy → Policy → EntRes
   | 0, _, _ => .outOfFuel
   | fuel + 1, a, b =>
     if nTerminals a > ENTAILMENT_MAX_TERMINALS then .none
-    else match a, b with
-      | .unsat, _ => .some true
-      | .trivial, .trivial => .some true
-      | .trivial, _ => .some false
-      | _, .unsat => .some false
-      | a, b =>
-        let aNorm := normalized a
-        let bNorm := normalized b
-        let fc := firstConstraint aNorm
-        let a1 := satisfyConstraint fc true aNorm
-        let b1 := satisfyConstraint fc true bNorm
-        let a2 := satisfyConstraint fc false aNorm
-        let b2 := satisfyConstraint fc false bNorm
-        -- `Some(Self::entails(a1, b1)? && Self::entails(a2, b2)?)`
-        (entailsF fuel a1 b1).andThen (fun _ => entailsF fuel a2 b2)
+    else entailsStep (entailsF fuel) (normalized a) (normalized b)
 
 /-- `Policy::entails` -/
 def entails (a b : Policy) : EntRes := entailsF (nTerminals a + 2) a b
